@@ -15,7 +15,9 @@ Inductive bodyclass :=
 | BInvalidPath          (* the JSON error "invalid path name: ..." and nothing else *)
 | BOther.               (* anything else: the handler ran *)
 
-(* one row of the permission matrix: user, password, client-IP classes ([] = any), permissions (action, path; [] = all) *)
+(* client address classes: 0 = 127.0.0.1 and 4 = 127.0.0.2 are REAL peer addresses (the driver connects from them);
+   1..3 = 10.1.1.1, 10.9.9.9, 10.3.3.3 only ever appear in X-Forwarded-For / X-Real-Ip headers.
+   one row of the permission matrix: user, password, client-IP classes ([] = any), permissions (action, path; [] = all) *)
 Record urow := mkU { u_name : list Z; u_pass : list Z; u_ips : list Z; u_perms : list (string * list Z) }.
 
 Inductive case :=
@@ -24,10 +26,17 @@ Inductive case :=
 | Req (srv : string)
       (method pattern : string) (listed acrm : bool)
       (cuser cpass : list Z)            (* the credentials the client presented (Basic / Bearer user:pass), else empty *)
-      (ip : Z)                          (* client IP class *)
+      (trusts_peer : bool)              (* the real peer is one of the trusted proxies this instance is CONFIGURED with
+                                           (instance 0: 127.0.0.1/32; instance 1: none) *)
+      (peer : Z)                        (* class of the real peer address (0 or 4) *)
+      (fwd : Z)                         (* class named by the forwarding headers (X-Forwarded-For first, else X-Real-Ip);
+                                           negative = no such header *)
       (qpath : list Z) (path_valid : bool)      (* ?path= and conf.IsValidPathName of it (oracle) *)
       (o_api o_metrics o_pprof o_playback_path o_playback : bool)
-          (* the real Manager.Authenticate admits this client for: api, metrics, pprof, playback on qpath, playback on "" *)
+          (* the real Manager.Authenticate admits these credentials FROM THE PEER ADDRESS for: api, metrics, pprof,
+             playback on qpath, playback on "" *)
+      (f_api f_metrics f_pprof f_playback_path f_playback : bool)
+          (* the same FROM THE FORWARDED ADDRESS (from the peer address when there is none) *)
       (status : Z) (body : bodyclass) (touched : bool).
 
 Fixpoint list_eqb (a b : list Z) : bool :=
@@ -41,7 +50,8 @@ Definition table_of (srv : string) : option table :=
   find (fun t => String.eqb (t_server t) srv) generated_tables.
 
 (* the matrix of the drivers (harness/c04lib): admin from IP class 1 only, one user per action, a per-path playback
-   user, a user without administrative permissions, and `any` (no credentials) for metrics from IP class 3 *)
+   user, a user without administrative permissions, `any` (no credentials) for metrics from IP class 3, a user for
+   every administrative action from the real loopback peer only, and `any` for pprof from the real loopback peer *)
 Definition b (s : string) : list Z := map (fun a => Z.of_nat (Ascii.nat_of_ascii a)) (list_ascii_of_string s).
 Definition the_matrix : list urow := [
   mkU (b "admin") (b "adminpass") [1]%Z [("api", []); ("metrics", []); ("pprof", []); ("playback", [])];
@@ -51,7 +61,9 @@ Definition the_matrix : list urow := [
   mkU (b "pbuser") (b "pbpass") [] [("playback", b "cam1"); ("read", [])];
   mkU (b "pball") (b "pballpass") [1]%Z [("playback", [])];
   mkU (b "reader") (b "readpass") [] [("read", []); ("publish", [])];
-  mkU (b "any") [] [3]%Z [("metrics", [])]
+  mkU (b "any") [] [3]%Z [("metrics", [])];
+  mkU (b "louser") (b "lopass") [0]%Z [("api", []); ("metrics", []); ("pprof", []); ("playback", [])];
+  mkU (b "any") [] [0]%Z [("pprof", [])]
 ].
 
 Definition urow_eqb (x y : urow) : bool :=
@@ -73,12 +85,14 @@ Definition mismatch (c : case) : bool :=
   | Matrix users =>
       negb (Nat.eqb (List.length users) (List.length the_matrix) &&
             forallb (fun xy => urow_eqb (fst xy) (snd xy)) (combine users the_matrix))
-  | Req srv method pattern listed acrm cuser cpass ip qpath path_valid o1 o2 o3 o4 o5 st body touched =>
-      let oracle := (o1, o2, o3, o4, o5) in
+  | Req srv method pattern listed acrm cuser cpass trusts_peer peer fwd qpath path_valid o1 o2 o3 o4 o5 f1 f2 f3 f4 f5
+        st body touched =>
       match table_of srv with
       | None => true
       | Some t =>
-          let auth := fun act (p : option (list Z)) (_ : creds) (_ : list Z) =>
+          (* the admit oracle: the real manager's decisions for the two addresses the server could take the client for *)
+          let auth := fun act (p : option (list Z)) (_ : creds) (ip : list Z) =>
+                        let oracle := if list_eqb ip [peer] then (o1, o2, o3, o4, o5) else (f1, f2, f3, f4, f5) in
                         match p with
                         | None => olookup act false oracle
                         | Some x => list_eqb x qpath && olookup act true oracle
@@ -86,8 +100,10 @@ Definition mismatch (c : case) : bool :=
           let valid := fun x => list_eqb x qpath && path_valid in
           let q := {| q_method := method; q_pattern := pattern; q_listed := listed; q_acrm := acrm;
                       q_creds := {| c_user := cuser; c_pass := cpass; c_token := [] |};
-                      q_ip := [ip]; q_path := qpath; q_other := [] |} in
-          let r := serve auth valid t q in
+                      q_ip := []; q_path := qpath; q_other := [] |} in
+          let w := {| w_peer := [peer]; w_forwarded := if Z.ltb fwd 0 then None else Some [fwd] |} in
+          (* the client address is the one gin's ClientIP yields on this table (t_proxies_set) for this peer / headers *)
+          let r := serve_wire auth valid t (fun _ => trusts_peer) w q in
           let d := data_obs body touched in
           negb (Bool.eqb d (carries_data r)) || (negb d && negb (Z.eqb st (status r)))
       end
@@ -114,8 +130,11 @@ Definition entitled (users : list urow) (act : string) (per_path : bool) (path c
 Definition spec_fail (c : case) : bool :=
   match c with
   | Matrix _ => false
-  | Req srv method pattern listed acrm cuser cpass ip qpath path_valid _ _ _ _ _ st body touched =>
+  | Req srv method pattern listed acrm cuser cpass trusts_peer peer fwd qpath path_valid _ _ _ _ _ _ _ _ _ _ st body touched =>
       let users := the_matrix in
+      (* the client address the property speaks about: what the forwarding headers name only if the real peer is a
+         configured trusted proxy, else the real peer, whatever the headers say *)
+      let ip := if trusts_peer && negb (Z.ltb fwd 0) then fwd else peer in
       let d := data_obs body touched in
       let pb := is_playback srv in
       let ent := entitled users (required_action srv) pb qpath cuser cpass ip in
